@@ -248,6 +248,10 @@ class ExprGen:
         # integers, some of them not representable in the matched shape
         if draw(BOOL):
             return draw(value_of_shape(w, s))
+        if draw(BOOL) and w:
+            # the other integer with the same w-bit pattern as a representable value (never matches)
+            v = draw(value_of_shape(w, s))
+            return v - (1 << w) if v >= 0 and not s else v + (1 << w) if v < 0 else v - (1 << w)
         return draw(INT(-(1 << w) - 1, (1 << w) + 1))
 
     def p_match(self, draw, d):
